@@ -27,9 +27,9 @@ var rec *vlib.Rec
 
 func TestMain(m *testing.M) {
 	rec = vlib.Open("C36")
-	rec.Rule("case = history of top-level declarations (var, const, func, struct types with fields, embedded types up to depth 2, methods with value and pointer receivers, imports with and without alias) interleaved with completion queries (line, cursor): single words, v.pre, v.f.pre, pkg.Pre, empty word after a dot, text before the word and after the cursor, blanks around dots, cursor beyond the end, unknown roots; " +
+	rec.Rule("case = history of top-level declarations (var, const, func, random embedding trees of struct types (fan-out 0-3 per node, depth up to 3, by value and by pointer, own fields and methods at every node, member names from a small pool so that shadowing and same-depth duplicates occur), further methods with value and pointer receivers, imports with and without alias) interleaved with completion queries (line, cursor): single words, v.pre, v.f.pre, pkg.Pre, empty word after a dot, text before the word and after the cursor, blanks around dots, cursor beyond the end, unknown roots; " +
 		"a query is non-trivial when its expected set has >= 2 elements from >= 2 sources (declared var/const/func/type, keyword or universe, field, own method, promoted field, promoted method, package member) or its line has text after the cursor; distinct = distinct (declarations so far, line, cursor)")
-	rec.Assume("reference model of Go selector validity on an addressable variable: own and promoted fields, methods with value and pointer receivers of the type and of its embedded types (by value or pointer); ambiguous selectors are excluded by construction")
+	rec.Assume("reference model of Go selector validity on an addressable variable: own and promoted fields, methods with value and pointer receivers of the type and of its embedded types (by value or pointer); same-depth duplicates are ambiguous (x.name does not compile, gomacro documents nothing about them): their presence in the completions is not asserted")
 	rec.Assume("keywords and universe-scope names are not modelled: they are what a pristine interpreter completes for the same word (differential), harness-declared names are exact in both directions")
 	rec.Assume("package members = keys of Binds and Types of imports.Packages[path]")
 	rec.Assume("the cursor is a byte offset at a rune boundary, as Interp.CompleteWords slices line[:pos]")
@@ -57,6 +57,7 @@ type Query struct {
 	Word   string   `json:"word"`             // typed partial last word
 	Chain  bool     `json:"chain,omitempty"`  // dotted chain: Want is complete; otherwise Want holds only the declared names and the pristine interpreter adds keywords/universe
 	Want   []string `json:"want"`
+	Maybe  []string `json:"maybe,omitempty"` // ambiguous selectors (same name twice at the shallowest depth): Go rejects x.name, gomacro documents nothing, so their presence is not asserted
 	Source string   `json:"source,omitempty"` // sources of the expected elements, for the non-trivial rule
 }
 
@@ -144,7 +145,22 @@ func checkQuery(ir *fast.Interp, q *Query) error {
 			return fmt.Errorf("CompleteWords(%q, %d): duplicate completion %q in %v", q.Line, q.Pos, got[i], got)
 		}
 	}
-	if !equal(got, want) {
+	if len(q.Maybe) > 0 {
+		// names whose presence is not asserted are ignored on both sides
+		maybe := map[string]bool{}
+		for _, n := range q.Maybe {
+			maybe[n] = true
+		}
+		var g []string
+		for _, n := range got {
+			if !maybe[n] {
+				g = append(g, n)
+			}
+		}
+		if !equal(g, want) {
+			return fmt.Errorf("CompleteWords(%q, %d): completions %v, expected %v plus possibly the ambiguous %v (%s)", q.Line, q.Pos, got, want, q.Maybe, diff(g, want))
+		}
+	} else if !equal(got, want) {
 		return fmt.Errorf("CompleteWords(%q, %d): completions %v, expected %v (%s)", q.Line, q.Pos, got, want, diff(got, want))
 	}
 	pos := q.Pos
@@ -284,43 +300,111 @@ func newModel() *model {
 	return &model{names: map[string]string{}, types: map[string]*typeDesc{}, vars: map[string]string{}, varPtr: map[string]bool{}, imports: map[string]string{}, plain: map[string]bool{}}
 }
 
-// members returns selector name -> source for an addressable variable of struct type
-// tn: own fields and methods, and everything promoted through embedded fields.
-func (m *model) members(tn string, depth int, out map[string]string) {
-	t := m.types[tn]
-	if t == nil {
-		return
-	}
-	put := func(name, src string) {
-		if _, ok := out[name]; !ok { // the shallowest wins; the set of names is what matters
-			out[name] = src
-		}
-	}
-	for _, f := range t.Fields {
-		if depth == 0 {
-			put(f.Name, "field")
-		} else {
-			put(f.Name, "promoted-field")
-		}
-	}
-	for _, mn := range t.Methods {
-		if depth == 0 {
-			put(mn, "method")
-		} else {
-			put(mn, "promoted-method")
-		}
-	}
-	for _, f := range t.Fields {
-		if f.Embedded {
-			m.members(f.Type, depth+1, out)
-		}
-	}
+// member is what a selector name denotes on a struct type, by Go's rules: the
+// field or method at the shallowest embedding depth; if the name occurs more than once at
+// that depth (also through two paths to the same embedded type) the selector is
+// ambiguous and x.name does not compile.
+type member struct {
+	Src       string // field, method, promoted-field, promoted-method
+	Depth     int
+	Count     int
+	Field     *field // when the name denotes a field
+	Ambiguous bool
 }
 
+// lookupAll walks the embedding tree of tn breadth first (with multiplicity).
+func (m *model) lookupAll(tn string) map[string]*member {
+	out := map[string]*member{}
+	level := []string{tn}
+	for depth := 0; len(level) > 0 && depth <= 8; depth++ {
+		found := map[string]*member{}
+		var next []string
+		add := func(name, src string, f *field) {
+			if mm := found[name]; mm != nil {
+				mm.Count++
+				mm.Ambiguous = true
+				return
+			}
+			if depth > 0 {
+				src = "promoted-" + src
+			}
+			found[name] = &member{Src: src, Depth: depth, Count: 1, Field: f}
+		}
+		for _, n := range level {
+			t := m.types[n]
+			if t == nil {
+				continue
+			}
+			for i := range t.Fields {
+				f := &t.Fields[i]
+				add(f.Name, "field", f)
+				if f.Embedded {
+					next = append(next, f.Type)
+				}
+			}
+			for _, mn := range t.Methods {
+				add(mn, "method", nil)
+			}
+		}
+		for name, mm := range found {
+			if _, ok := out[name]; !ok {
+				out[name] = mm
+			}
+		}
+		level = next
+	}
+	return out
+}
+
+// memberSet: unambiguous selector names -> source.
 func (m *model) memberSet(tn string) map[string]string {
 	out := map[string]string{}
-	m.members(tn, 0, out)
+	for n, mm := range m.lookupAll(tn) {
+		if !mm.Ambiguous {
+			out[n] = mm.Src
+		}
+	}
 	return out
+}
+
+func (m *model) ambiguousSet(tn string) []string {
+	var l []string
+	for n, mm := range m.lookupAll(tn) {
+		if mm.Ambiguous {
+			l = append(l, n)
+		}
+	}
+	sort.Strings(l)
+	return l
+}
+
+// shape of the embedding tree below tn: depth, largest fan-out, and whether some level
+// holds >= 2 embedded structs of which one that is not the last embeds >= 2 itself
+func (m *model) treeShape(tn string) (depth, fan int, wideNested bool) {
+	level := []string{tn}
+	for d := 0; len(level) > 0 && d <= 8; d++ {
+		var next []string
+		for i, n := range level {
+			k := 0
+			for _, f := range m.types[n].Fields {
+				if f.Embedded {
+					k++
+					next = append(next, f.Type)
+				}
+			}
+			if k > fan {
+				fan = k
+			}
+			if k >= 2 && len(level) >= 2 && i < len(level)-1 {
+				wideNested = true
+			}
+		}
+		if len(next) > 0 {
+			depth = d + 1
+		}
+		level = next
+	}
+	return
 }
 
 func pkgMembers(path string) []string {
@@ -375,154 +459,83 @@ func (m *model) freeName(t *rapid.T, label string) string {
 	return rapid.SampledFrom(namePool).Draw(t, label)
 }
 
-func (m *model) genDecl(t *rapid.T) string {
+func (m *model) genDecl(t *rapid.T) []string {
 	switch k := rapid.IntRange(0, 11).Draw(t, "decl-kind"); {
 	case k <= 1: // plain var / const / func
 		name := m.freeName(t, "name")
 		kind := rapid.SampledFrom([]string{"var", "const", "func"}).Draw(t, "plain-kind")
 		if old, ok := m.names[name]; ok && (old == "type" || old == "import" || m.vars[name] != "") {
-			return ""
+			return nil
 		}
 		m.names[name] = kind
 		delete(m.vars, name)
 		switch kind {
 		case "var":
-			return "var " + name + " int"
+			return []string{"var " + name + " int"}
 		case "const":
-			return "const " + name + " = 7"
+			return []string{"const " + name + " = 7"}
 		}
-		return "func " + name + "() int { return 1 }"
-	case k <= 4: // struct type
-		var cands []string
-		for _, n := range []string{"T0", "T1", "T2", "T3", "Tab", "Tabc", "Ty"} {
-			if m.types[n] == nil {
-				cands = append(cands, n)
-			}
+		return []string{"func " + name + "() int { return 1 }"}
+	case k <= 4: // a tree of struct types: embedded children are declared before their parent
+		var out []string
+		budget := rapid.IntRange(1, 9).Draw(t, "tree-nodes")
+		root := m.genTree(t, 0, &budget, &out)
+		d, fan, wn := m.treeShape(root)
+		rec.Label(fmt.Sprintf("tree:depth=%d", d))
+		rec.Label(fmt.Sprintf("tree:max-fan-out=%d", fan))
+		if wn {
+			rec.Label("tree:wide-and-nested")
 		}
-		if len(cands) == 0 {
-			cands = []string{fmt.Sprintf("Tn%d", len(m.order))}
+		if len(m.ambiguousSet(root)) > 0 {
+			rec.Label("tree:has-ambiguous-selector")
 		}
-		td := &typeDesc{Name: rapid.SampledFrom(cands).Draw(t, "tname")}
-		used := map[string]bool{}
-		promoted := map[string]bool{}
-		var parts []string
-		nf := rapid.IntRange(0, 4).Draw(t, "nfields")
-		for i := 0; i < nf; i++ {
-			fk := rapid.IntRange(0, 5).Draw(t, "field-kind")
-			if fk <= 2 || len(m.order) == 0 {
-				name := rapid.SampledFrom(memberPool).Draw(t, "fname")
-				if used[name] {
-					continue
-				}
-				used[name] = true
-				ft := rapid.SampledFrom([]string{"int", "string"}).Draw(t, "ftype")
-				td.Fields = append(td.Fields, field{Name: name, Type: ft})
-				parts = append(parts, name+" "+ft)
-				continue
-			}
-			other := rapid.SampledFrom(m.order).Draw(t, "ftype-named")
-			ptr := rapid.Bool().Draw(t, "fptr")
-			star := ""
-			if ptr {
-				star = "*"
-			}
-			if fk <= 3 { // named field of struct type
-				name := rapid.SampledFrom(memberPool).Draw(t, "fname")
-				if used[name] {
-					continue
-				}
-				if known("F-C36-3") {
-					if m.hasMethods(other) {
-						rec.Excluded("F-C36-3")
-						continue
-					}
-					m.markPlain(other)
-				}
-				used[name] = true
-				td.Fields = append(td.Fields, field{Name: name, Type: other, Ptr: ptr})
-				parts = append(parts, name+" "+star+other)
-				continue
-			}
-			// embedded: depth <= 2 and no ambiguous selector
-			if used[other] || m.embedDepth(other) >= 2 {
-				continue
-			}
-			if ptr && known("F-C36-2") {
-				rec.Excluded("F-C36-2")
-				ptr, star = false, ""
-			}
-			clash := false
-			for n := range m.memberSet(other) {
-				if promoted[n] {
-					clash = true
-				}
-			}
-			if clash || promoted[other] {
-				rec.Label("excluded:ambiguous-selector")
-				continue
-			}
-			for n := range m.memberSet(other) {
-				promoted[n] = true
-			}
-			promoted[other] = true
-			used[other] = true
-			td.Fields = append(td.Fields, field{Name: other, Type: other, Ptr: ptr, Embedded: true})
-			parts = append(parts, star+other)
-		}
-		// an own field with the name of a promoted member shadows it (valid); an own field
-		// named like an embedded field is a duplicate field: dropped above through used[]
-		m.types[td.Name] = td
-		m.order = append(m.order, td.Name)
-		m.names[td.Name] = "type"
-		return "type " + td.Name + " struct { " + strings.Join(parts, "; ") + " }"
+		return out
 	case k <= 6: // method
 		if len(m.order) == 0 {
-			return ""
+			return nil
 		}
 		tn := rapid.SampledFrom(m.order).Draw(t, "recv")
 		td := m.types[tn]
 		name := rapid.SampledFrom(memberPool).Draw(t, "mname")
 		for _, f := range td.Fields {
 			if f.Name == name {
-				return "" // field and method with the same name: not Go
+				return nil // field and method with the same name: not Go
 			}
 		}
 		for _, mn := range td.Methods {
 			if mn == name {
-				return "" // method redeclared: not Go
+				return nil // method redeclared: not Go
 			}
-		}
-		// a new method must not make a selector of a type embedding tn (twice removed) ambiguous
-		if m.wouldBeAmbiguous(tn, name) {
-			rec.Label("excluded:ambiguous-selector")
-			return ""
 		}
 		if known("F-C36-3") && m.plain[tn] {
 			rec.Excluded("F-C36-3")
-			return ""
+			return nil
 		}
 		td.Methods = append(td.Methods, name)
 		if rapid.Bool().Draw(t, "ptr-recv") {
-			return "func (r *" + tn + ") " + name + "() int { return 2 }"
+			return []string{"func (r *" + tn + ") " + name + "() int { return 2 }"}
 		}
-		return "func (r " + tn + ") " + name + "() {}"
+		return []string{"func (r " + tn + ") " + name + "() {}"}
 	case k <= 8: // variable of struct type
 		if len(m.order) == 0 {
-			return ""
+			return nil
 		}
 		name := m.freeName(t, "vname")
 		if old, ok := m.names[name]; ok && old != "var" {
-			return ""
+			return nil
 		}
-		tn := rapid.SampledFrom(m.order).Draw(t, "vtype")
+		tn := m.order[len(m.order)-1] // the root of the latest tree
+		if rapid.Bool().Draw(t, "vtype-any") {
+			tn = rapid.SampledFrom(m.order).Draw(t, "vtype")
+		}
 		ptr := rapid.Bool().Draw(t, "vptr")
 		m.names[name] = "var"
 		m.vars[name] = tn
 		m.varPtr[name] = ptr
 		if ptr {
-			return "var " + name + " *" + tn
+			return []string{"var " + name + " *" + tn}
 		}
-		return "var " + name + " " + tn
+		return []string{"var " + name + " " + tn}
 	default: // import
 		path := rapid.SampledFrom(pkgPool).Draw(t, "pkg")
 		local := pkgName(path)
@@ -532,12 +545,124 @@ func (m *model) genDecl(t *rapid.T) string {
 			alias = local + " "
 		}
 		if old, ok := m.names[local]; ok && old != "import" {
-			return ""
+			return nil
 		}
 		m.names[local] = "import"
 		m.imports[local] = path
-		return "import " + alias + `"` + path + `"`
+		return []string{"import " + alias + `"` + path + `"`}
 	}
+}
+
+var typePool = []string{"T0", "T1", "T2", "T3", "Tab", "Tabc", "Ty"}
+
+func (m *model) newTypeName(t *rapid.T) string {
+	var cands []string
+	for _, n := range typePool {
+		if m.types[n] == nil {
+			cands = append(cands, n)
+		}
+	}
+	if len(cands) == 0 || rapid.IntRange(0, 2).Draw(t, "tname-numbered") == 0 {
+		return fmt.Sprintf("Tn%d", len(m.order))
+	}
+	return rapid.SampledFrom(cands).Draw(t, "tname")
+}
+
+// genTree declares one struct type at the given depth of an embedding tree: 0-3 embedded
+// children (new types declared first, or earlier types; by value or by pointer), down
+// to depth 3, own fields and methods at every node. Member names come from a small
+// pool, so shadowing and same-depth duplicates arise by themselves. Returns the type name.
+func (m *model) genTree(t *rapid.T, depth int, budget *int, out *[]string) string {
+	*budget--
+	td := &typeDesc{}
+	used := map[string]bool{}
+	var parts []string
+	fan := 0
+	if depth < 3 && *budget > 0 {
+		fan = rapid.IntRange(0, 3).Draw(t, "fan-out")
+	}
+	for i := 0; i < fan; i++ {
+		var child string
+		if len(m.order) > 0 && (*budget <= 0 || rapid.IntRange(0, 3).Draw(t, "reuse") == 0) {
+			child = rapid.SampledFrom(m.order).Draw(t, "child")
+			if used[child] || depth+1+m.embedDepth(child) > 3 {
+				continue
+			}
+		} else if *budget > 0 {
+			child = m.genTree(t, depth+1, budget, out)
+		} else {
+			continue
+		}
+		used[child] = true
+		ptr := rapid.Bool().Draw(t, "embed-ptr")
+		if ptr && known("F-C36-2") {
+			rec.Excluded("F-C36-2")
+			ptr = false
+		}
+		td.Fields = append(td.Fields, field{Name: child, Type: child, Ptr: ptr, Embedded: true})
+		if ptr {
+			parts = append(parts, "*"+child)
+		} else {
+			parts = append(parts, child)
+		}
+	}
+	nf := rapid.IntRange(0, 3).Draw(t, "nfields")
+	for i := 0; i < nf; i++ {
+		name := rapid.SampledFrom(memberPool).Draw(t, "fname")
+		if used[name] {
+			continue
+		}
+		if len(m.order) > 0 && rapid.IntRange(0, 4).Draw(t, "field-struct") == 0 {
+			// plain (not embedded) field of an earlier struct type
+			other := rapid.SampledFrom(m.order).Draw(t, "ftype-named")
+			if known("F-C36-3") {
+				if m.hasMethods(other) {
+					rec.Excluded("F-C36-3")
+					continue
+				}
+				m.markPlain(other)
+			}
+			ptr := rapid.Bool().Draw(t, "fptr")
+			used[name] = true
+			td.Fields = append(td.Fields, field{Name: name, Type: other, Ptr: ptr})
+			if ptr {
+				parts = append(parts, name+" *"+other)
+			} else {
+				parts = append(parts, name+" "+other)
+			}
+			continue
+		}
+		used[name] = true
+		ft := rapid.SampledFrom([]string{"int", "string"}).Draw(t, "ftype")
+		td.Fields = append(td.Fields, field{Name: name, Type: ft})
+		parts = append(parts, name+" "+ft)
+	}
+	// fields in random positions relative to the embedded ones
+	if len(parts) > 1 && rapid.Bool().Draw(t, "rotate") {
+		k := rapid.IntRange(1, len(parts)-1).Draw(t, "rotate-by")
+		parts = append(parts[k:], parts[:k]...)
+		td.Fields = append(td.Fields[k:], td.Fields[:k]...)
+	}
+	td.Name = m.newTypeName(t)
+	m.types[td.Name] = td
+	m.order = append(m.order, td.Name)
+	m.names[td.Name] = "type"
+	*out = append(*out, "type "+td.Name+" struct { "+strings.Join(parts, "; ")+" }")
+	nm := rapid.IntRange(0, 2).Draw(t, "nmethods")
+	for i := 0; i < nm; i++ {
+		name := rapid.SampledFrom(memberPool).Draw(t, "mname")
+		if used[name] {
+			continue
+		}
+		used[name] = true
+		td.Methods = append(td.Methods, name)
+		if rapid.Bool().Draw(t, "ptr-recv") {
+			*out = append(*out, "func (r *"+td.Name+") "+name+"() int { return 2 }")
+		} else {
+			*out = append(*out, "func (r "+td.Name+") "+name+"() {}")
+		}
+	}
+	return td.Name
 }
 
 func (m *model) embedDepth(tn string) int {
@@ -550,37 +675,6 @@ func (m *model) embedDepth(tn string) int {
 		}
 	}
 	return d
-}
-
-// wouldBeAmbiguous: adding member name to type tn makes some selector of a declared
-// type ambiguous (the name reachable through two different embedded fields).
-func (m *model) wouldBeAmbiguous(tn, name string) bool {
-	for _, on := range m.order {
-		o := m.types[on]
-		n := 0
-		for _, f := range o.Fields {
-			if !f.Embedded {
-				continue
-			}
-			_, has := m.memberSet(f.Type)[name]
-			if has || f.Type == tn || m.embeds(f.Type, tn) {
-				n++
-			}
-		}
-		if n >= 2 {
-			return true
-		}
-	}
-	return false
-}
-
-func (m *model) embeds(outer, inner string) bool {
-	for _, f := range m.types[outer].Fields {
-		if f.Embedded && (f.Type == inner || m.embeds(f.Type, inner)) {
-			return true
-		}
-	}
-	return false
 }
 
 func prefixOf(t *rapid.T, s string, label string) string {
@@ -671,8 +765,8 @@ func (m *model) genQuery(t *rapid.T) *Query {
 			collect(tn)
 			if len(fs) > 0 {
 				f := fs[rapid.IntRange(0, len(fs)-1).Draw(t, "qfield")]
-				// the field must be what the selector resolves to: the shallowest of that name
-				if m.resolvesTo(tn, f) {
+				// the field must be what the selector resolves to: the only one of that name at the shallowest depth
+				if mm := m.lookupAll(tn)[f.Name]; mm != nil && !mm.Ambiguous && mm.Field != nil && *mm.Field == f {
 					chainText += f.Name + dot()
 					tn = f.Type
 					form = "query:var.field.member"
@@ -695,6 +789,17 @@ func (m *model) genQuery(t *rapid.T) *Query {
 			if strings.HasPrefix(n, word) {
 				q.Want = append(q.Want, n)
 				sources[mem[n]] = true
+			}
+		}
+		q.Maybe = withPrefix(m.ambiguousSet(tn), word)
+		if len(q.Maybe) > 0 {
+			rec.Label("query:ambiguous-names-not-asserted")
+		}
+		if d, fan, wn := m.treeShape(tn); true {
+			rec.Label(fmt.Sprintf("query-root:embed-depth=%d", d))
+			rec.Label(fmt.Sprintf("query-root:max-fan-out=%d", fan))
+			if wn {
+				rec.Label("query-root:wide-and-nested")
 			}
 		}
 		chainText += word
@@ -756,32 +861,6 @@ func (m *model) genQuery(t *rapid.T) *Query {
 	return q
 }
 
-// resolvesTo: selecting f.Name on type tn yields exactly field f (it is not shadowed
-// by a shallower member of the same name).
-func (m *model) resolvesTo(tn string, f field) bool {
-	level := []string{tn}
-	for len(level) > 0 {
-		var next []string
-		for _, n := range level {
-			for _, g := range m.types[n].Fields {
-				if g.Name == f.Name {
-					return g == f
-				}
-				if g.Embedded {
-					next = append(next, g.Type)
-				}
-			}
-			for _, mn := range m.types[n].Methods {
-				if mn == f.Name {
-					return false
-				}
-			}
-		}
-		level = next
-	}
-	return false
-}
-
 func TestCompletion(t *testing.T) {
 	want, ran := rec.Scale(200, 300), 0
 	defer func() {
@@ -801,7 +880,7 @@ func TestCompletion(t *testing.T) {
 		var nts []string
 		for i := 0; i < n; i++ {
 			if rapid.IntRange(0, 2).Draw(t, "step-kind") == 0 {
-				if d := m.genDecl(t); d != "" {
+				for _, d := range m.genDecl(t) {
 					c.Steps = append(c.Steps, Step{Decl: d})
 					m.decls = append(m.decls, d)
 					rec.Label("decl:" + strings.SplitN(d, " ", 2)[0])
